@@ -20,7 +20,10 @@ RULE = ("histories of 20-90 Vgroup operations on one file (Vattach(-1)/Vattach/V
         "chunk-table prefix and the legacy name limit -- and differing right after), renames to near misses of the "
         "current value (records shrinking / growing by 1-3 bytes), a final lookup of every existing name and class "
         "through every lookup routine, through still-open handles and after detach (in random order) and reopen; five "
-        "generator profiles (edit, growth, names, hierarchy, codec) plus store histories (Hputelement over existing "
+        "generator profiles (edit, growth, names, hierarchy, codec), table histories (every ordered pair of deletions "
+        "among 3..10 vgroups and 3..8 vdatas, random longer deletion sequences, full enumeration after each deletion in "
+        "the same session), error-path histories (over-long names, duplicate inserts, absent members, missing objects, "
+        "each followed by a read-back) plus store histories (Hputelement over existing "
         "elements, records shrinking / growing by 1-5 bytes with the raw element compared after every Vdetach); all choices from one PRNG (VERIF_SEED); a light "
         "shadow state only steers weights; reference numbers are taken from the library and only checked for "
         "freshness.  A history is non-trivial when it edits a member list and reads it back after a reopen; "
@@ -658,6 +661,93 @@ def gen_store_history(r, name):
     return L
 
 
+def tree_history(name, kind, n, dels, r=None):
+    """the per-file tables (a threaded balanced tree in the library): n objects created in order, the ones in `dels`
+    deleted in that order, the whole table enumerated after every deletion IN THE SAME SESSION (forwards from -1 and
+    from every surviving key), then lookups that depend on the enumeration, then again after a reopen"""
+    L = ["history " + name, "open"]
+    for i in range(n):
+        if kind == "g":
+            L.append("vhmakegroup %s ~ =%d" % (hexs(b"t%d" % i), i))
+        else:
+            L.append("vsnew %s %s 1 =%d" % (hexs(b"v%d" % i), hexs(b"k%d" % (i % 3)), i))
+    it, dl, gid = ("iter", "vdelete", "getid") if kind == "g" else ("vsiter", "vsdelete", "vsgetid")
+    L.append(it)
+    alive = list(range(n))
+    for d in dels:
+        L.append("%s @%d" % (dl, d))
+        alive.remove(d)
+        L.append(it)
+        L += ["%s @%d" % (gid, a) for a in alive[-3:]] + ["%s @%d" % (gid, d)]
+        if r is not None and r.random() < 0.3 and len(alive) < 14:      # a new object goes in between
+            k = n + len(L)
+            L.append(("vhmakegroup %s ~ =%d" % (hexs(b"n%d" % k), k)) if kind == "g" else
+                     ("vsnewempty %s - =%d" % (hexs(b"n%d" % k), k)))
+            alive.append(k)
+            L.append(it)
+    if kind == "g":
+        L += ["lone 64", "find %s" % hexs(b"t%d" % (n - 1)), "find %s" % hexs(b"t0")]
+    else:
+        L += ["vslone 64", "vsfind %s" % hexs(b"v%d" % (n - 1)), "vsfindclass 6b31"]
+    # (the Vgetvgroups / VSgetvdatas family is asked only after the reopen: on a damaged tree it would spin)
+    L += ["reopen", it, "countvgroupsf 0" if kind == "g" else "vsgetvdatasf 0 0"]
+    return L
+
+
+def gen_tree_histories(r, tier):
+    """every ordered pair of deletions among n = 3..10 vgroups and n = 3..8 vdatas (complete), plus random longer
+    deletion sequences with creations in between"""
+    out = []
+    for n in range(3, 11):
+        for a in range(n):
+            for b in range(n):
+                if a != b:
+                    out.append(tree_history("treeg%d_%d_%d" % (n, a, b), "g", n, [a, b]))
+    for n in range(3, 9):
+        for a in range(n):
+            for b in range(n):
+                if a != b:
+                    out.append(tree_history("trees%d_%d_%d" % (n, a, b), "s", n, [a, b]))
+    for i in range(40 if tier == "quick" else 800):
+        n = r.randrange(4, 17)
+        k = r.randrange(2, n)
+        out.append(tree_history("treer%d" % i, r.choice("gs"), n, r.sample(range(n), k), r))
+    return out
+
+
+def gen_error_history(r, name):
+    """refused calls must change nothing: over-long names (65536 / 65537 / 70000 bytes) on vgroups with and without
+    a name, duplicate Vinsert, absent Vdeletetagref, attaching / deleting what does not exist, edits of a read-only
+    vgroup, out-of-range queries -- each followed by a full read-back through the handle, then an edit that marks
+    the vgroup, detach, reopen and read-back"""
+    L = ["history " + name, "open", "vgnew 0 =0"]
+    named = r.random() < 0.8
+    nm, cl = rname(r, True) or b"nm", rname(r) or b"cl"
+    if named:
+        L += ["setname 0 %s" % hexs(nm), "setclass 0 %s" % hexs(cl)]
+    L += ["addtagref 0 1965 @0", "addtagref 0 720 3"]
+    if r.random() < 0.5:
+        L += ["vgdetach 0", r.choice(["reopen", "reopen v"]), "vgattach 0 @0 w"]
+    dump = ["getname 0", "getclass 0", "gettagrefs 0 9", "ntagrefs 0", "find %s" % hexs(nm), "findclass %s" % hexs(cl)]
+    big = lambda k: "61" * k
+    bad = ["setname 0 %s" % big(r.choice([65536, 65537, 70000])), "setclass 0 %s" % big(r.choice([65536, 65537, 70000])),
+           "insertvg 0 0", "insertvg 0 0", "deltagref 0 720 9", "deltagref 0 1 1", "vgattach 5 999 w", "vdelete 999",
+           "vsdelete 999", "gettagref 0 7", "gettagref 0 -1", "getvgroupsg 0 5 3", "vsgetvdatasg 0 4 2", "ventries 0",
+           "vsattach 3 999", "flocate 0 66"]
+    r.shuffle(bad)
+    for b in bad[:r.randrange(4, 10)]:
+        L.append(b)
+        L += dump if (b.startswith("set") or r.random() < 0.3) else dump[:3]
+    # the longest accepted name still works
+    if r.random() < 0.3:
+        L += ["setname 0 %s" % big(65535), "ntagrefs 0"]
+        nm = b"a" * 65535
+    L += ["addtagref 0 1962 4", "vgdetach 0", r.choice(["reopen", "reopen v"]), "vgattach 1 @0 r"]
+    L += [d.replace(" 0", " 1", 1) if d.split()[0] in ("getname", "getclass", "gettagrefs", "ntagrefs") else d for d in dump]
+    L += ["addtagref 1 720 5", "setname 1 6e", "gettagrefs 1 9", "vgdetach 1"]
+    return L
+
+
 # --------------------------------------------------------------------------------------------------
 # running
 # --------------------------------------------------------------------------------------------------
@@ -853,6 +943,10 @@ def run(ctx):
     hists += [gen_codec_history(r, "codec%d" % i) for i in range(ncodec)]
     nstore = 30 if ctx.tier == "quick" else 600
     hists += [gen_store_history(r, "codecstore%d" % i) for i in range(nstore)]
+    trees = gen_tree_histories(r, ctx.tier)
+    hists += trees
+    nerr = 24 if ctx.tier == "quick" else 400
+    hists += [gen_error_history(r, "err%d" % i) for i in range(nerr)]
     rc, R, S, M, flat, res = run_all(ctx, hists, "main")
     opmix, fails_r, nviol_s, nviol_m = {}, 0, 0, 0
     maxmem, growth_hits, name_lens, unspec_h, codec_ops, unspec_ops = 0, set(), set(), 0, 0, {}
@@ -914,6 +1008,8 @@ def run(ctx):
     ctx.corr("V~VGraphSpec", histories=len(hists), operations=len(flat), op_mix=opmix, library_fail_results=fails_r,
              corpus_histories=len(corpus), histories_leaving_domain=unspec_h, first_op_outside_domain=unspec_ops, max_members_seen=maxmem,
              capacities_seen=sorted(growth_hits), name_lengths_set=sorted(name_lens), mismatching_histories=nviol_s)
+    ctx.corr("tables", delete_pair_histories_complete=len(trees) - (40 if ctx.tier == "quick" else 800),
+             random_delete_sequences=(40 if ctx.tier == "quick" else 800), error_path_histories=nerr)
     ctx.corr("V~VGModel", histories=len(hists), codec_histories=ncodec, codec_operations=codec_ops,
              mismatching_histories=nviol_m)
 
